@@ -357,7 +357,7 @@
 		false
 	}
 	/// "bridge-compatible": the same type, or both reference types and the bridge's type is Object or another super type of the delegate's type
-	/// (a type variable erased to Object or to its bound, a covariant return type)
+	/// (a type variable erased to Object or to its bound, a covariant return type).  No universe contains an array type.
 	fn bridge_compatible(jar: &MJar, bridge: &str, delegate: &str) -> bool {
 		if bridge == delegate { return true; }
 		let reference = |t: &str| t.starts_with('L') || t.starts_with('[');
